@@ -159,6 +159,11 @@ Proof.
     left; sproj; try reflexivity; exact C.
 Qed.
 
+Lemma apply_mss_timer : forall s r, s_timer (tcp_apply_mss s r) = s_timer s.
+Proof.
+  intros. unfold tcp_apply_mss. destruct (r_max_seg_size r) as [m|]; [destruct (m =? 0)|]; sproj; reflexivity.
+Qed.
+
 Lemma transition_cont_timer : forall cx s ip r c al aof tg s3,
   tcp_process_transition cx s ip r c al aof = Ok (Cont tg s3) ->
   s_timer s3 = s_timer s \/ timer_is_idle (s_timer s3) = true \/ timer_is_close (s_timer s3) = true.
@@ -176,7 +181,7 @@ Proof.
     repeat match type of H with context [if ?b then _ else _] => destruct b end;
       inversion H; subst; sproj; reflexivity. }
   (* SynSent + SYN: timer untouched *)
-  { left. pose proof (apply_mss_sim s r) as ((_ & A2 & _) & _).
+  { left. pose proof (apply_mss_timer s r) as A2.
     revert H A2. generalize (tcp_apply_mss s r). intros q H A2.
     repeat match type of H with context [if ?b then _ else _] => destruct b end;
       inversion H; subst; sproj; exact A2. }
@@ -628,7 +633,7 @@ Lemma dt_rto : forall cx s s1 tg e,
    exists e1, s_timer s1 = TRetransmit e1 /\ cx_now cx < e1 <= cx_now cx + max_rto_us).
 Proof.
   intros cx s s1 tg e I Hto Ht He Hw H. unfold tcp_dispatch_timers in H. fold (dt_pre cx s) in H.
-  pose proof (dt_pre_core cx s) as (C1 & C2 & C3 & C4 & C5 & C6 & C7 & C8 & C9 & C10).
+  pose proof (dt_pre_core cx s) as (C1 & C2 & C3 & C4 & C5 & C6 & C7 & C8 & C9 & C10 & C11).
   pose proof (dt_pre_misc cx s) as (M1 & _ & _).
   assert (Cm : s_remote_mss (dt_pre cx s) = s_remote_mss s)
     by (unfold dt_pre; destruct (is_some (s_remote_last_ts s)); sproj; reflexivity).
